@@ -101,9 +101,14 @@ def asis : MathQuirks := { extremeCssFallback := true, infFuzzyEq := true }
 
 variable {α : Type} [MOps α]
 
+/-- `impl PartialEq for Number`: `feq` is the relative-epsilon test; since fix ad53320 an
+infinite number equals only itself (`infFuzzyEq` = the code before that fix) -/
+def neq (q : MathQuirks) (a b : α) : Bool :=
+  feq a b && (q.infFuzzyEq || !(isInf a || isInf b) || (!lt a b && !lt b a))
+
 /-- `impl PartialOrd for Number` -/
 def ncmp (q : MathQuirks) (a b : α) : Option Ordering :=
-  if feq a b && (q.infFuzzyEq || !(isInf a || isInf b) || (!lt a b && !lt b a)) then some .eq
+  if neq q a b then some .eq
   else if lt a b then some .lt
   else if lt b a then some .gt
   else Option.none
@@ -130,7 +135,13 @@ def qcmp (q : MathQuirks) (a b : Q α) : Option Ordering :=
     | some .eq => Option.none
     | o => o
   else match asUnit b a.u with
-    | some scaled => ncmp q a.v scaled
+    | some scaled =>
+      let result := ncmp q a.v scaled
+      -- fix 02e3b12: equality must not depend on which operand is converted
+      if result != some .eq && (match asUnit a b.u with
+          | some s2 => neq q s2 b.v
+          | Option.none => false) then some .eq
+      else result
     | Option.none => Option.none
 
 /-- `fn cmp2` -/
